@@ -230,7 +230,7 @@ def build(shapes, seed=0, mode="binds", formname="data", homonyms=False):
                 if f.hdr("calculate") not in row:
                     row[f.hdr("calculate")] = f"concat('{n}', 't')"
                 attrs = [a for a in attrs if a[0] != "calculate"]
-        if mode == "defaults" and not is_section and shape in ("text", "typed", "calc", "sel1", "selm", "upload", "hidden"):
+        if mode == "defaults" and not is_section and shape in ("text", "typed", "calc", "sel1", "selm", "upload", "hidden", "trigger", "range"):
             r = rnd.random()
             if r < 0.6 and qtype not in ("start-geopoint",):
                 cls = rnd.choice(["static", "dynamic", "dynamic", "either"])
